@@ -216,7 +216,7 @@ impl Prop for C18 {
         "each evaluation = one seeded run spec (workloads of the C01, C04 and C14 spaces incl. >= pack-cardinality contigs in one file, queue capacities below one contig, the library-API driver, verbosity 0..3, truncated archives; length and range queries on the reader) executed twice, by the release build and by the same build with overflow-checks and debug-assertions on, under the SAME recorded seed-derived schedule; oracle: equal transcripts (Ok/Err of create, archive SHA-256, round-trip verdict, answers of the length/range queries, verdict per truncation point) and no arithmetic-overflow panic in the checked run. distinct_nontrivial = distinct schedule-trace digests among runs with >=2 tasks and >=1 preemption."
     }
     fn runs(&self, tier: Tier) -> u64 {
-        match tier { Tier::Quick => 16_000, Tier::Thorough => 800_000 }
+        match tier { Tier::Quick => 16_000, Tier::Thorough => 500_000 }
     }
     fn profiles(&self) -> Vec<&'static str> { vec!["fast", "checked"] }
     fn compare_profiles(&self) -> bool { true }
